@@ -29,7 +29,7 @@ import PercevalModel.Found.SM
 namespace PM.C14
 
 /-- exception classes that the lifecycle can raise -/
-inductive Exc | ValueError | TypeError | ZeroDivisionError | RuntimeError | KeyError
+inductive Exc | ValueError | TypeError | ZeroDivisionError | RuntimeError | KeyError | AttributeError
 deriving DecidableEq, Repr
 
 def Exc.name : Exc → String
@@ -38,6 +38,7 @@ def Exc.name : Exc → String
   | .ZeroDivisionError => "ZeroDivisionError"
   | .RuntimeError => "RuntimeError"
   | .KeyError => "KeyError"
+  | .AttributeError => "AttributeError"
 
 /-- periodic, both bounds given and equal, value outside: `(v-max_v)/(max_v-min_v)` divides by zero -/
 def zeroSpanOutside (lo hi : Option ℚ) (v : ℚ) : Bool :=
